@@ -426,6 +426,15 @@ def station_checks(ctx, job, idx, rng, st, station, ost, date, base_w):
         ctx.violation("C11/station-origin-conversion-raises", dict(base_w, to="ITRF", exc=repr(exc)), repr(exc))
         return
     ctx.count("station-placed")
+    # the coordinates the station says it has are the ones it was given (radians, radians, metres)
+    try:
+        lla = [float(x) for x in station.latlonalt]
+        exp_lla = [math.radians(base_w["lat_deg"]), math.radians(base_w["lon_deg"]), float(base_w["alt_m"])]
+        ctx.count("station-latlonalt-read")
+        ctx.expect(len(lla) == 3 and all(abs(g - x) <= 1e-15 * max(1.0, abs(x)) for g, x in zip(lla, exp_lla)), "C11/station-latlonalt-not-the-given-coordinates",
+                   dict(base_w, latlonalt=lla, expected=exp_lla), f"station.latlonalt = {lla}, created with {exp_lla} (rad, rad, m)")
+    except Exception as exc:
+        ctx.violation("C11/station-latlonalt-raises", dict(base_w, exc=repr(exc)), f"station.latlonalt raised {exc!r}")
     pos = (float(e[0]), float(e[1]), float(e[2]))
     R = geo.norm(ost.ecef)
     # --- on the ellipsoid at height h.  Noise: 3 products/sums on 6.4e6 m -> ~2e-9 m (measured
